@@ -191,7 +191,12 @@ fn eval_exprs(exprs: &[String]) -> ExitCode {
 
 fn real_main() -> ExitCode {
 	#[cfg(feature = "verif-hooks")]
-	if let Some(code) = verif_hooks::maybe_run(&std::env::args().skip(1).collect::<Vec<_>>()) {
+	if let Some(code) = verif_hooks::maybe_run(
+		&std::env::args_os()
+			.skip(1)
+			.filter_map(|a| a.into_string().ok())
+			.collect::<Vec<_>>(),
+	) {
 		return ExitCode::from(u8::try_from(code).unwrap_or(2));
 	}
 	// Assemble the action from all but the first argument.
